@@ -64,7 +64,7 @@ func (p *Program) VerifyContract(ct *Contract, tier string) *Unit {
 			}()
 			p.genFunc(c, fn, ct)
 		}()
-		stable := !c.grew && reflect.DeepEqual(c.blockWrites, c.blockWritesPrev)
+		stable := pass >= 2 && !c.grew && reflect.DeepEqual(c.blockWrites, c.blockWritesPrev)
 		c.blockWritesPrev = c.blockWrites
 		if stable {
 			break
